@@ -83,12 +83,16 @@ func (w *world) compactLog() {
 		}
 	}
 	w.ops = append(kept, jop{Op: "dev", On: w.dev})
-	// sessions of earlier blocks are not presented any more, but their indices must stay valid
+	// no kept step refers to a session: forget the sessions of earlier blocks (they are not presented any more)
+	w.sessNames = nil
 }
 
 func (w *world) logRequest(q reqSpec, mode string) {
 	c := q
 	for i, s := range w.sessNames {
+		if c.Cookie == "" {
+			break
+		}
 		if s != "" && strings.Contains(c.Cookie, s) {
 			c.Cookie = strings.ReplaceAll(c.Cookie, s, fmt.Sprintf("{{S%d}}", i))
 		}
